@@ -2,7 +2,7 @@
 import random, itertools, operator
 import numpy as np
 from . import common
-from .spectrum_common import enc, observe, rand_spectrum, rand_shape, rand_labels, mutate
+from .spectrum_common import enc, observe, rand_spectrum, rand_shape, rand_labels, mutate, relayout
 
 PROP = 'C09'
 
@@ -27,6 +27,8 @@ def records(ctx):
             sh[0] += 1 - (sum(x - 1 for x in sh) % 2)
         fs = rand_spectrum(rng, sh, folded=False, labels=rand_labels(rng, ndim),
                            mask_mode=['none', 'corners', 'random', 'single', 'random'][k % 5])
+        if k % 3 == 2:      # non-contiguous memory layout, same abstract spectrum
+            fs = relayout(fs, rot=(k // 3) % 3)
         add('fold', {'s': enc(fs)}, observe(lambda: fs.fold()), 'Spectrum.fold')
         add('fold_mirror', {'s': enc(fs)}, observe(lambda: dadi.Spectrum(Numerics.reverse_array(fs), mask_corners=False).fold()), 'Spectrum.fold')
         add('fuf', {'s': enc(fs)}, observe(lambda: fs.fold().unfold().fold()), 'Spectrum.unfold')
